@@ -36,7 +36,7 @@ pub static C08: CheckSpec = CheckSpec {
     runs_thorough: 15_000_000,
     cap_quick_s: 60,
     cap_thorough_s: 900,
-    rule: "same histories as C07; at lookup steps and at the end of each run closest_keys / closest_values / closest_values_predicate (3 targets: local id, stored ids, ids at a chosen log2 distance 0..256 with the low bits set, random) are compared with the sorted post-iteration full scan, and nodes_by_distances (distinct distances incl. 0, >256, u64::MAX; cap 1..20) with the stored nodes at those distances; distinct = distinct hash of the operation/result log",
+    rule: "same histories as C07; at lookup steps and at the end of each run closest_keys / closest_values / closest_values_predicate (3 targets: local id, stored ids, ids at a chosen log2 distance 0..256 with the low bits set, random) are compared with the sorted post-iteration full scan, and nodes_by_distances (distinct distances incl. 0, >256, u64::MAX; cap 1..20) with the stored nodes at those distances; distinct = distinct hash of the operation/result log; the order in which the closest-node lookups and the distance lookups touch the table after each operation is chosen per check (both apply pending nodes whose timeout has run out)",
     components_real: REAL_TABLE,
     components_stub: STUB_CLOCK,
     enumerated: None,
@@ -51,7 +51,7 @@ pub static C16: CheckSpec = CheckSpec {
     runs_thorough: 6_000_000,
     cap_quick_s: 60,
     cap_thorough_s: 900,
-    rule: "one run = one generated history (20..320 operations: insert_or_update, record updates that may move a node to another /24, status updates, removals, Entry API, iteration, clock advances around the 60 s pending timeout) on the routing table of a Discv5 built with ip_limit (real IpTableFilter/IpBucketFilter), over 30..150 real signed records drawn from 1-3 /24 subnets plus address-less and IPv6-only fillers, with an optional fill burst so that full buckets with pending candidates occur; per-bucket and per-table /24 counts are checked after every operation; distinct = distinct hash of the operation/result log; an eighth of the IPv4 records carry an IPv4 address without a UDP port, another eighth IPv4 and IPv6 endpoints together; a quarter of the operations after a candidate became pending are aimed at that candidate (status reports, record updates, entry operations)",
+    rule: "one run = one generated history (20..320 operations: insert_or_update, record updates that may move a node to another /24, status updates, removals, Entry API, iteration, clock advances around the 60 s pending timeout) on the routing table of a Discv5 built with ip_limit (real IpTableFilter/IpBucketFilter), over 30..150 real signed records drawn from 1-3 /24 subnets plus address-less and IPv6-only fillers, with an optional fill burst so that full buckets with pending candidates occur; per-bucket and per-table /24 counts are checked after every operation; distinct = distinct hash of the operation/result log; an eighth of the IPv4 records carry an IPv4 address without a UDP port, another eighth IPv4 and IPv6 endpoints together; a quarter of the operations after a candidate became pending are aimed at that candidate (status reports, record updates, entry operations); the node listens on IPv4, IPv6 only or both",
     components_real: &["kbucket::KBucketsTable<NodeId, Enr>", "kbucket::filter::{IpTableFilter, IpBucketFilter}", "Discv5::new (filter wiring)", "enr records with real signatures"],
     components_stub: STUB_CLOCK,
     enumerated: None,
@@ -121,6 +121,15 @@ pub static C18: CheckSpec = CheckSpec {
 const REAL_HANDLER: &[&str] = &["handler::Handler (send_request, handle_challenge, handle_auth_message, handle_message, handle_response, timeouts, pending requests, replay on re-key)", "handler::session::Session + handler::crypto (real secp256k1 ECDH, HKDF, AES-GCM)", "handler::active_requests::ActiveRequests (delay_map timers)", "lru_time_cache::LruTimeCache (session cache)", "socket::recv::RecvHandler::handle_inbound (filter, exemption lookup, Packet::decode)", "socket::send: Packet::encode", "rpc codec"];
 const STUB_HANDLER: &[&str] = &["UDP sockets and the two socket I/O select loops (replaced by equivalent loops over the harness's virtual network)", "OS clock (interposed; follows tokio's paused clock)", "OS entropy (interposed getrandom: seeded PRNG)", "the service layer above the handler (the harness plays each handler's application: answers WhoAreYou queries and requests)"];
 
+const REAL_HANDLER_AND_SERVICE: &[&str] = &[
+    "scenario identity-adversary (W-H): handler::Handler, handler::session::Session + handler::crypto (real secp256k1 ECDH/ECDSA, HKDF, AES-GCM), ActiveRequests, LruTimeCache, socket::recv::RecvHandler::handle_inbound, Packet::encode/decode, rpc codec",
+    "scenario table-policy (W-S): Discv5 public API, service::Service (session reports, who-are-you queries, NODES handling, routing-table admission and update), kbucket::KBucketsTable with the configured filters",
+];
+const STUB_HANDLER_AND_SERVICE: &[&str] = &[
+    "scenario identity-adversary: UDP sockets and the two socket I/O loops (virtual network), OS clock and entropy (interposed), the service layer (the harness plays each handler's application)",
+    "scenario table-policy: the Handler (scripted by the harness through hook H5), sockets, OS clock and entropy (interposed)",
+];
+
 fn f_c09(ctx: &mut Ctx) {
     worlds::fworld::run(ctx, worlds::fworld::Which { c09: true, ..Default::default() });
 }
@@ -179,7 +188,7 @@ pub static C15: CheckSpec = CheckSpec {
     runs_thorough: 900_000,
     cap_quick_s: 75,
     cap_thorough_s: 1200,
-    rule: "session-ttl: a victim with session_timeout in {2,5,30,120} s and 1-3 real peers; 4-17 sequential exchanges in either direction separated by idle gaps of 50 ms, timeout/2, timeout-0.7 s, timeout+1 ms, timeout+0.7 s, 2*timeout; every datagram the victim encrypts and every message it accepts is attributed to one of its sessions (key log) and that session's idle time must not exceed the timeout. session-capacity: capacity 1-5, 2-7 real peers, sequential exchanges in tape-chosen order and direction, then the victim pings every peer most-recently-used first: ranks below the capacity must be answered on the existing session, ranks at or above it must start with a random packet; non-trivial = an idle gap longer than the timeout occurred / more peers than capacity; distinct = distinct event-log hash; capacity-with-expiry: capacity 2-4, session_timeout 20/60 s, the cache is filled, one peer's session is left to expire (the peer may crash; the victim may look the expired session up once more) while the others stay in use, then a new peer arrives: the probe demands that every session used within the timeout is still held",
+    rule: "session-ttl: a victim with session_timeout in {2,5,30,120} s and 1-3 real peers; 4-17 sequential exchanges in either direction separated by idle gaps of 50 ms, timeout/2, timeout-0.7 s, timeout+1 ms, timeout+0.7 s, 2*timeout; every datagram the victim encrypts and every message it accepts is attributed to one of its sessions (key log) and that session's idle time must not exceed the timeout. session-capacity: capacity 1-5, 2-7 real peers, sequential exchanges in tape-chosen order and direction, then the victim pings every peer most-recently-used first: ranks below the capacity must be answered on the existing session, ranks at or above it must start with a random packet; non-trivial = an idle gap longer than the timeout occurred / more peers than capacity; distinct = distinct event-log hash; capacity-with-expiry: capacity 2-4, session_timeout 20/60 s, the cache is filled, one peer's session is left to expire (the peer may crash; the victim may look the expired session up once more) while the others stay in use, then a new peer arrives: the probe demands that every session used within the timeout is still held; a fifth of the runs use an IPv6-only network; the victim's application sometimes answers a request only around or after the expiry of the session it came in on",
     components_real: REAL_HANDLER,
     components_stub: STUB_HANDLER,
     enumerated: None,
@@ -212,7 +221,7 @@ pub static C11: CheckSpec = CheckSpec {
     runs_thorough: 1_500_000,
     cap_quick_s: 75,
     cap_thorough_s: 1200,
-    rule: "one run = a real service with 1-10 table peers out of a universe of 10-40 real signed records, one lookup whose target is random, a peer's id, a peer's id with one of the three lowest bits flipped (request lists containing 0) or the local id; each FINDNODE the lookup emits is answered by an honest responder (all records of its neighbourhood at the requested distances, own record iff 0 requested, 1-4 packets, consistent total, sometimes a late extra packet) or a malicious one (off-distance records, the requester's own record, duplicates, totals 0..2^64-1 with up to 20 packets, more packets than announced, a single foreign record) or by RequestFailed; accepted records are observed as Discovered events packet by packet, the ban list is read after every response; non-trivial = the lookup asked at least one peer; distinct = distinct event-log hash; Scenario 'full-stack': 2-5 complete honest Discv5 nodes (API, service, handler, tables) on the virtual network with drop/duplicate/delay/bit-flip/late-replay/partition/restart faults and API calls (find_node incl. targets adjacent to a peer's id, send_ping, talk_req, find_node_designated_peer); the ban list must stay empty (all peers are honest)",
+    rule: "one run = a real service with 1-10 table peers out of a universe of 10-40 real signed records, one lookup whose target is random, a peer's id, a peer's id with one of the three lowest bits flipped (request lists containing 0) or the local id; each FINDNODE the lookup emits is answered by an honest responder (all records of its neighbourhood at the requested distances, own record iff 0 requested, 1-4 packets, consistent total, sometimes a late extra packet) or a malicious one (off-distance records, the requester's own record, duplicates, totals 0..2^64-1 with up to 20 packets, more packets than announced, a single foreign record) or by RequestFailed; accepted records are observed as Discovered events packet by packet, the ban list is read after every response; non-trivial = the lookup asked at least one peer; distinct = distinct event-log hash; Scenario 'full-stack': 2-5 complete honest Discv5 nodes (API, service, handler, tables) on the virtual network with drop/duplicate/delay/bit-flip/late-replay/partition/restart faults and API calls (find_node incl. targets adjacent to a peer's id, send_ping, talk_req, find_node_designated_peer); the ban list must stay empty (all peers are honest); ban_duration is the default, 10 min or None (banned for good)",
     components_real: REAL_SERVICE,
     components_stub: STUB_SERVICE,
     enumerated: None,
@@ -230,9 +239,9 @@ pub static C12: CheckSpec = CheckSpec {
     runs_thorough: 2_000_000,
     cap_quick_s: 75,
     cap_thorough_s: 1200,
-    rule: "table-policy (real service, scripted handler): 10-70 steps over a universe of 6-26 real signed records: Established (incoming/outgoing, record shapes v4 / none / v6-only / both / v4-mapped v6 / v4+tcp, sequence number equal or higher than known), add_enr (lower/equal/higher seq), remove_node, disconnect_node, lookups whose FINDNODEs are answered with records of any shape and seq lower/equal/higher (discovered records), PONGs advertising higher seqs, request failures, idle time; IP mode v4 / v6 / dual stack; table filter none / no-tcp / odd-seq; the routing table is read after every step. identity-adversary (real handlers, W-H): the C01 scenario, which also lets the adversary handshake under its own id with a record advertising its real source, no address, or somebody else's address and demands that an incoming Established carries a record whose UDP address equals the observed source; non-trivial = the table was non-empty at the end / an attack datagram was injected; distinct = distinct event-log hash; record shape 6 = IPv4 address without UDP port (not contactable over IPv4); identity scenario: see C01 (a peer that presents another identity's record in answer to the handler's own record request must not make that identity Established); the adversary's own identity is known to the victim's application with a lower, equal (other content) or higher sequence number than the record its handshake attaches: Established must carry the held record unless the attached one is strictly newer",
-    components_real: REAL_SERVICE,
-    components_stub: STUB_SERVICE,
+    rule: "table-policy (real service, scripted handler): 10-70 steps over a universe of 6-26 real signed records: Established (incoming/outgoing, record shapes v4 / none / v6-only / both / v4-mapped v6 / v4+tcp, sequence number equal or higher than known), add_enr (lower/equal/higher seq), remove_node, disconnect_node, lookups whose FINDNODEs are answered with records of any shape and seq lower/equal/higher (discovered records), PONGs advertising higher seqs, request failures, idle time; IP mode v4 / v6 / dual stack; table filter none / no-tcp / odd-seq; the routing table is read after every step. identity-adversary (real handlers, W-H): the C01 scenario, which also lets the adversary handshake under its own id with a record advertising its real source, no address, or somebody else's address and demands that an incoming Established carries a record whose UDP address equals the observed source; non-trivial = the table was non-empty at the end / an attack datagram was injected; distinct = distinct event-log hash; record shape 6 = IPv4 address without UDP port (not contactable over IPv4); identity scenario: see C01 (a peer that presents another identity's record in answer to the handler's own record request must not make that identity Established); the adversary's own identity is known to the victim's application with a lower, equal (other content) or higher sequence number than the record its handshake attaches: Established must carry the held record unless the attached one is strictly newer; unauthenticated who-are-you queries for table nodes (see C01) are part of the operation set",
+    components_real: REAL_HANDLER_AND_SERVICE,
+    components_stub: STUB_HANDLER_AND_SERVICE,
     enumerated: None,
     assumptions: &["the scripted handler reports, like the real one, only records whose address is absent or equals the source, and never a record older than (or a different one with the same seq as) the one the service knows", "'every entry was the subject of an Established or add_enr' is checked over the whole run (not since its last absence)"],
 };
@@ -245,7 +254,7 @@ pub static C14: CheckSpec = CheckSpec {
     runs_thorough: 600_000,
     cap_quick_s: 75,
     cap_thorough_s: 1200,
-    rule: "one run = a real service whose table holds 2-61 real signed records (padded to the 300-byte limit in two of three runs), max_nodes_response in {1,4,16,32,48}; 3-14 requests: FINDNODE with 0-6 distances (0, 256..249, random; duplicates, unsorted), request ids of 0-8 bytes, requesters that are table entries or strangers, PINGs from ports incl. 0; the HandlerIn::Response values are compared with the table read back through the public API and every packet is encrypted (AES-GCM) and encoded with the real codec to measure its wire size; every run is non-trivial; distinct = distinct event-log hash; Scenario 'full-stack' (W-F, see C09): every NODES and PONG a complete node puts on the wire is decrypted with the key log: records only at the distances of the FINDNODE it answers (matched by request id), never the requester's record, only entries of the sender's table (or its own record), total >= 1; PONG reports exactly the requester's address and the sender's current sequence number; record sizes: plain, maximal (300 bytes) or every size in between at byte granularity",
+    rule: "one run = a real service whose table holds 2-61 real signed records (padded to the 300-byte limit in two of three runs), max_nodes_response in {1,4,16,32,48}; 3-14 requests: FINDNODE with 0-6 distances (0, 256..249, random; duplicates, unsorted), request ids of 0-8 bytes, requesters that are table entries or strangers, PINGs from ports incl. 0; the HandlerIn::Response values are compared with the table read back through the public API and every packet is encrypted (AES-GCM) and encoded with the real codec to measure its wire size; every run is non-trivial; distinct = distinct event-log hash; Scenario 'full-stack' (W-F, see C09): every NODES and PONG a complete node puts on the wire is decrypted with the key log: records only at the distances of the FINDNODE it answers (matched by request id), never the requester's record, only entries of the sender's table (or its own record), total >= 1; PONG reports exactly the requester's address and the sender's current sequence number; record sizes: plain, maximal (300 bytes) or every size in between at byte granularity; PING sources are IPv4, IPv6 and IPv4-mapped IPv6 addresses with ports from the whole range, and the local record is sometimes updated (enr_insert) before a PING so that the PONG must carry the new sequence number",
     components_real: REAL_SERVICE,
     components_stub: STUB_SERVICE,
     enumerated: None,
@@ -260,7 +269,7 @@ pub static C17: CheckSpec = CheckSpec {
     runs_thorough: 400_000,
     cap_quick_s: 75,
     cap_thorough_s: 1200,
-    rule: "one run = a real service in IPv4 mode with enr_peer_update_min 2..6, vote_duration 8/30/120 s, ping interval 1 s, 2-12 voters established as outgoing or incoming peers; 10-70 rounds in which a held PING is answered with a PONG carrying that voter's current opinion among three candidate addresses (fewer liars than the minimum vote a third address), voters change opinion, time passes (up to a whole vote duration); the local record is read after every PONG: a change to an address must be backed, at that moment, by at least the minimum number of unexpired latest votes of eligible (outgoing) peers and every rival must stay below round(0.7 x that count); seq increases, the record verifies, one SocketUpdated event per change; non-trivial = at least one eligible vote was cast; distinct = distinct event-log hash; every SocketUpdated event must announce an address the record now advertises and every change must be announced in the same step",
+    rule: "one run = a real service in IPv4 mode with enr_peer_update_min 2..6, vote_duration 8/30/120 s, ping interval 1 s, 2-12 voters established as outgoing or incoming peers; 10-70 rounds in which a held PING is answered with a PONG carrying that voter's current opinion among three candidate addresses (fewer liars than the minimum vote a third address), voters change opinion, time passes (up to a whole vote duration); the local record is read after every PONG: a change to an address must be backed, at that moment, by at least the minimum number of unexpired latest votes of eligible (outgoing) peers and every rival must stay below round(0.7 x that count); seq increases, the record verifies, one SocketUpdated event per change; non-trivial = at least one eligible vote was cast; distinct = distinct event-log hash; every SocketUpdated event must announce an address the record now advertises and every change must be announced in the same step; PINGs to voters sometimes time out (the voter is marked disconnected; its earlier unexpired vote stands, a PONG of its counts again only after one has been processed)",
     components_real: REAL_SERVICE,
     components_stub: STUB_SERVICE,
     enumerated: None,
@@ -275,7 +284,7 @@ pub static C20: CheckSpec = CheckSpec {
     runs_thorough: 2_000_000,
     cap_quick_s: 75,
     cap_thorough_s: 1200,
-    rule: "one run = 1-150 TALKREQs from 5 peers delivered to a real service; the application (harness) takes the TalkRequest objects from the event stream and, in tape order, responds, drops or holds them; stream modes: drained, never drained (fills up), receiver dropped; in one run of three the service is shut down at a chosen point and the (scripted) handler goes away with it, after which held requests are responded to or dropped; while running every TALKREQ must get exactly one TALKRESP with its id to its address carrying the application's payload or an empty one; after shutdown respond() must return an error and nothing may panic; every run is non-trivial; distinct = distinct event-log hash; the application may sit on requests for 50 ms .. 10 min before answering or dropping them; Scenario 'full-stack' (W-F, see C09): the applications of complete nodes answer or drop every TalkRequest event at once; per (node, requester, request id) the TALKRESP packets on the wire (decrypted with the key log) never outnumber the events, carry a payload the application produced, and equal the events in number at the end unless the node restarted or a handler dropped a response for lack of a session; the application's payload may be explicitly empty",
+    rule: "one run = 1-150 TALKREQs from 5 peers delivered to a real service; the application (harness) takes the TalkRequest objects from the event stream and, in tape order, responds, drops or holds them; stream modes: drained, never drained (fills up), receiver dropped; in one run of three the service is shut down at a chosen point and the (scripted) handler goes away with it, after which held requests are responded to or dropped; while running every TALKREQ must get exactly one TALKRESP with its id to its address carrying the application's payload or an empty one; after shutdown respond() must return an error and nothing may panic; every run is non-trivial; distinct = distinct event-log hash; the application may sit on requests for 50 ms .. 10 min before answering or dropping them; Scenario 'full-stack' (W-F, see C09): the applications of complete nodes answer or drop every TalkRequest event at once; per (node, requester, request id) the TALKRESP packets on the wire (decrypted with the key log) never outnumber the events, carry a payload the application produced, and equal the events in number at the end unless the node restarted or a handler dropped a response for lack of a session; the application's payload may be explicitly empty; the application sometimes panics while it holds a request (the request object is dropped by the unwinding)",
     components_real: REAL_SERVICE,
     components_stub: STUB_SERVICE,
     enumerated: None,
@@ -300,14 +309,14 @@ pub static C13: CheckSpec = CheckSpec {
 pub static C01: CheckSpec = CheckSpec {
     id: "C01",
     level: "exploration",
-    scenarios: &[Scenario { name: "identity-adversary", weight: 1, run: worlds::h_adv::run_c01 }],
+    scenarios: &[Scenario { name: "identity-adversary", weight: 3, run: worlds::h_adv::run_c01 }, Scenario { name: "table-policy", weight: 1, run: worlds::s_table::run }],
     runs_quick: 20_000,
     runs_thorough: 600_000,
     cap_quick_s: 75,
     cap_thorough_s: 1200,
-    rule: "one run = a victim handler, 1-2 genuine peers (one possibly not running) and an adversary without any honest secret key; the victim's application knows the genuine record, nothing, or a stale record; 1-3 attacks = random packet claiming a genuine id from the attacker's or the genuine (spoofed) address, then a handshake answering the victim's WHOAREYOU with record in {own (seq below/equal/above), genuine (replayed), none, own with the genuine address}, signer in {attacker key, garbage, replayed genuine signature}, valid or invalid ephemeral key; interleaved with genuine requests in both directions; every identity effect (Established, Request, Response, UnverifiableEnr, recipient-side session keys) must be justified by a delivered handshake whose id-signature verifies under the claimed id's public key over one of the node's own WHOAREYOUs to that address, or by the node's own dial; non-trivial = an attack datagram was injected; distinct = distinct event-log hash; in a third of the runs one genuine peer lies about who it is after an honest handshake: asked for its record (the FINDNODE [0] a handler sends by itself to a contact dialled without a record) it presents a validly signed record of another identity (another node's genuine record, one without address, a second identity at its own address); each challenge justifies one session only (a session derived again from an already answered challenge is a replay); genuine handshakes are sometimes damaged in their message part and re-presented repeatedly",
-    components_real: REAL_HANDLER,
-    components_stub: STUB_HANDLER,
+    rule: "one run = a victim handler, 1-2 genuine peers (one possibly not running) and an adversary without any honest secret key; the victim's application knows the genuine record, nothing, or a stale record; 1-3 attacks = random packet claiming a genuine id from the attacker's or the genuine (spoofed) address, then a handshake answering the victim's WHOAREYOU with record in {own (seq below/equal/above), genuine (replayed), none, own with the genuine address}, signer in {attacker key, garbage, replayed genuine signature}, valid or invalid ephemeral key; interleaved with genuine requests in both directions; every identity effect (Established, Request, Response, UnverifiableEnr, recipient-side session keys) must be justified by a delivered handshake whose id-signature verifies under the claimed id's public key over one of the node's own WHOAREYOUs to that address, or by the node's own dial; non-trivial = an attack datagram was injected; distinct = distinct event-log hash; in a third of the runs one genuine peer lies about who it is after an honest handshake: asked for its record (the FINDNODE [0] a handler sends by itself to a contact dialled without a record) it presents a validly signed record of another identity (another node's genuine record, one without address, a second identity at its own address); each challenge justifies one session only (a session derived again from an already answered challenge is a replay); genuine handshakes are sometimes damaged in their message part and re-presented repeatedly; a fifth of the identity-adversary runs use an IPv6-only network; Scenario 'table-policy' (the C12 service world): undecryptable packets claiming a table node from its own or another address make the handler raise a who-are-you query: the claimed node's table entry (record, connection state) must not change",
+    components_real: REAL_HANDLER_AND_SERVICE,
+    components_stub: STUB_HANDLER_AND_SERVICE,
     enumerated: None,
     assumptions: &["the oracle trusts the crate's ECDSA id-signature verification (reference vectors in the test suite)", "effects of sessions the node itself dialled are justified by its own request to that contact (the remote proves itself by decrypting under the static-key ECDH)"],
 };
@@ -323,7 +332,7 @@ pub static C02: CheckSpec = CheckSpec {
     runs_thorough: 2 * worlds::h_tamper::ENUM_SPACE + 200_000,
     cap_quick_s: 75,
     cap_thorough_s: 1500,
-    rule: "enumerated half: 6 base exchanges (fresh recipient session, initiator with multi-packet NODES, record-less contact awaiting the record, re-key after session loss, simultaneous dial with a third node, NODES in 2 packets then reverse PING) x datagram index 0..9 x mutation index j (every single-bit flip, every truncation length, a 1-byte insertion at every offset, 1..8 junk bytes appended to the auth-data with the masked size field patched to cover them, presentation from the sender's IP on another UDP port; j beyond that is an empty case that ends at once): 198540 cases, all executed by the thorough tier, a fixed-stride sample by the quick tier; exactly one genuine datagram is replaced by its mutation per run. explored half: tape-chosen base plus extra requests, 5-40 % of the datagrams mutated by bit flip / truncation / insertion / auth-data growth with patched size field / header-body splice with an earlier datagram / misdelivery / re-masking for another node / spoofed source, with jitter and duplicates, sometimes delivering the genuine datagram as well; non-trivial = at least one mutated datagram was delivered; distinct = distinct event-log hash; exploration also lets a party with keys of its own answer a node's WHOAREYOU in the challenged peer's name from the peer's address (own/peer's/no record, lower/equal/higher seq): nothing it sends may be delivered as the peer's",
+    rule: "enumerated half: 6 base exchanges (fresh recipient session, initiator with multi-packet NODES, record-less contact awaiting the record, re-key after session loss, simultaneous dial with a third node, NODES in 2 packets then reverse PING) x datagram index 0..9 x mutation index j (every single-bit flip, every truncation length, a 1-byte insertion at every offset, 1..8 junk bytes appended to the auth-data with the masked size field patched to cover them, presentation from the sender's IP on another UDP port; j beyond that is an empty case that ends at once): 198540 cases, all executed by the thorough tier, a fixed-stride sample by the quick tier; exactly one genuine datagram is replaced by its mutation per run. explored half: tape-chosen base plus extra requests, 5-40 % of the datagrams mutated by bit flip / truncation / insertion / auth-data growth with patched size field / header-body splice with an earlier datagram / misdelivery / re-masking for another node / spoofed source, with jitter and duplicates, sometimes delivering the genuine datagram as well; non-trivial = at least one mutated datagram was delivered; distinct = distinct event-log hash; exploration also lets a party with keys of its own answer a node's WHOAREYOU in the challenged peer's name from the peer's address (own/peer's/no record, lower/equal/higher seq): nothing it sends may be delivered as the peer's; explored runs: a fifth on an IPv6-only network, peers whose record advertises another port than they send from, and datagrams presented from that advertised socket; a delivery is justified if any datagram that carried the message from the attributed address belongs to a session established with that address",
     components_real: REAL_HANDLER,
     components_stub: STUB_HANDLER,
     enumerated: Some(("tamper-enumerated", worlds::h_tamper::ENUM_SPACE)),
@@ -341,7 +350,7 @@ pub static C03: CheckSpec = CheckSpec {
     runs_thorough: 2 * worlds::h_replay::ENUM_SPACE + 600_000,
     cap_quick_s: 75,
     cap_thorough_s: 1200,
-    rule: "enumerated half: for each of 7 base exchanges (X dials V with/without V knowing X's record, V dials X with/without record, re-key after session loss, simultaneous dial plus a third node, X dials V with a record that advertises another address than it sends from) every recorded handshake/WHOAREYOU datagram (index 0..7) x every later point (after the 1st..12th emitted datagram, after all challenges expired, while a later exchange runs) x {original source, other address, towards another node} is re-injected, one per run: 2352 cases, all executed in both tiers (runs whose datagram index does not exist inject nothing and are trivial); explored half: tape-chosen base, 1-4 replays, jitter and duplicates, extra requests; non-trivial = a replay was injected; distinct = distinct event-log hash; exploration also holds genuine handshakes back until around or past the expiry of the challenge they answer (timeout-300 .. timeout+1200 ms) while further undecryptable packets in the sender's name reach the challenger; exploration also presents WHOAREYOU and handshake datagrams from the sender's IP on another UDP port (instead of, or before, the genuine copy) and delivers genuine handshakes damaged in their message part repeatedly",
+    rule: "enumerated half: for each of 7 base exchanges (X dials V with/without V knowing X's record, V dials X with/without record, re-key after session loss, simultaneous dial plus a third node, X dials V with a record that advertises another address than it sends from) every recorded handshake/WHOAREYOU datagram (index 0..7) x every later point (after the 1st..12th emitted datagram, after all challenges expired, while a later exchange runs) x {original source, other address, towards another node} is re-injected, one per run: 2352 cases, all executed in both tiers (runs whose datagram index does not exist inject nothing and are trivial); explored half: tape-chosen base, 1-4 replays, jitter and duplicates, extra requests; non-trivial = a replay was injected; distinct = distinct event-log hash; exploration also holds genuine handshakes back until around or past the expiry of the challenge they answer (timeout-300 .. timeout+1200 ms) while further undecryptable packets in the sender's name reach the challenger; exploration also presents WHOAREYOU and handshake datagrams from the sender's IP on another UDP port (instead of, or before, the genuine copy) and delivers genuine handshakes damaged in their message part repeatedly; explored runs: a fifth on an IPv6-only network",
     components_real: REAL_HANDLER,
     components_stub: STUB_HANDLER,
     enumerated: Some(("replay-enumerated", worlds::h_replay::ENUM_SPACE)),
